@@ -62,7 +62,18 @@ func Getenv(k string) string            { return os.Getenv(k) }
 func LookupEnv(k string) (string, bool) { return os.LookupEnv(k) }
 func Getpid() int                       { return 4242 }
 func Hostname() (string, error)         { return "verif-host", nil }
-func Getwd() (string, error)            { return os.Getwd() }
+func Getwd() (string, error) {
+	if x := zzvrt.Cur(); x != nil {
+		return x.FS.Getwd(), nil
+	}
+	return os.Getwd()
+}
+func Chdir(dir string) error {
+	if x := zzvrt.Cur(); x != nil {
+		return x.FS.Chdir(dir)
+	}
+	return os.Chdir(dir)
+}
 func Exit(code int)                     { panic("os.Exit called") }
 func TempDir() string                   { return "/tmp" }
 
